@@ -68,6 +68,37 @@ def _search_exit(E, outcome, value, env, prefix):
             inner_ = z3.SubString(text, sz + k, z3.Length(tz) - k - 1)
             ob7('dtml_tag_ends_outside_quotes', cnt(inner_, z3.StringVal('"')) % 2 == 0,
                 'the text between %s and the closing > contains an even number of double quotes' % opener_)
+    # C07: for the two tag syntaxes of HTML the fields are read off the tag text in the same way: the argument text is
+    # everything between the tag name and the closer, stripped -- nothing of it is dropped or reinterpreted in one
+    # syntax only.  Stated with an existential split point (witness candidates: the integer locals of the scanner, so
+    # the clause does not depend on how they are named).
+    if name is not None and args is not None and E.is_strlike(args) and E.is_strlike(name) and not E.valid(
+            z3.SubString(tz, 0, 5) == z3.StringVal('&dtml')):
+        strip = z3.Function('str_strip', z3.StringSort(), z3.StringSort())
+        az, nz = E.as_z3_str(args), E.as_z3_str(name)
+        L = z3.Length(tz)
+        for opener_, k, en_ in (('<!--#', 5, 3), ('<dtml-', 6, 1), ('</dtml-', 7, 1)):
+            if not E.valid(z3.SubString(text, sz, k) == z3.StringVal(opener_)):
+                continue
+            close = sz + L - en_          # position of the closer in the text
+            # integer view: args == strip(text[lo:hi]) as the engine's slice provenance records it (no string solving)
+            info = E.ghost.get('slice_of', {})
+
+            def stripped_slice(t):
+                if z3.is_app(t) and t.decl().name() == 'str_strip' and t.arg(0).get_id() in info:
+                    base, lo, hi = info[t.arg(0).get_id()]
+                    if base.eq(text):
+                        return lo, hi
+                return None
+            asl, nsl = stripped_slice(az), stripped_slice(nz)
+            d1 = ('the args field of a %s...%s tag is the stripped source text from the end of the tag name up to the closer: no '
+                  'character before the closer is dropped from the arguments' % (opener_, '-->' if en_ == 3 else '>'))
+            d2 = 'the name field is the stripped text of the tag body between the opener (and end marker) and the point where the arguments begin'
+            if asl is None or nsl is None:
+                ob7('arguments_are_the_rest_of_the_tag_body', False, d1 + ' (the fields are not computed as stripped slices of the source text)')
+                continue
+            ob7('arguments_are_the_rest_of_the_tag_body', z3.And(asl[0] >= sz + k, z3.Or(asl[1] == close, asl[0] >= close)), d1)
+            ob7('name_is_the_text_before_the_arguments', z3.And(nsl[0] >= sz + k, z3.Or(nsl[1] == asl[0], z3.And(asl[0] >= close, nsl[1] >= close))), d2)
     closer = z3.Or(*[z3.SuffixOf(z3.StringVal(p), tz) for p in ('-->', '>', ';')])
     ob1('match_ends_with_a_tag_closer', closer, 'and it ends with -->, > or ;')
 
